@@ -184,9 +184,74 @@ class Rules:
         self.hit(r, n)
         return b2
 
+    def slice_match(self, b):
+        """R29: `match &V[..] { [p1, .., pn] (if G)? => E, ..., _ => E }` (identifier sub-patterns only, last arm `_`) -> if-chain on V.len() in arm order,
+        binding pi = &V[i-1]; in a guard the identifiers are replaced by V[i-1].  Slice patterns are outside Verus.  Any other shape is left alone."""
+        out = b
+        for m in list(re.finditer(r'match &(\w+)\[\.\.\] \{', b)):
+            v = m.group(1)
+            br = m.end() - 1
+            close = match_close(b, br)
+            inner = re.sub(r'//[^\n]*', '', b[br + 1:close])      # line comments between arms are dropped
+            arms, cur, d, k = [], '', 0, 0
+            while k < len(inner):          # split at top-level commas; only ()[]{} nest here (`<=` and `=>` are not brackets), string literals are skipped
+                ch = inner[k]
+                if ch == '"':
+                    e = k + 1
+                    while inner[e] != '"':
+                        e += 2 if inner[e] == '\\' else 1
+                    cur += inner[k:e + 1]
+                    k = e + 1
+                    continue
+                if ch in '([{':
+                    d += 1
+                elif ch in ')]}':
+                    d -= 1
+                if ch == ',' and d == 0:
+                    arms.append(cur)
+                    cur = ''
+                else:
+                    cur += ch
+                k += 1
+            arms.append(cur)
+            arms = [a.strip() for a in arms if a.strip()]
+            parsed = []
+            ok = True
+            for a in arms:
+                mm = re.match(r'(?s)^(\[[^\]]*\]|_)\s*(?:if\s+(.*?))?\s*=>\s*(.*)$', a)
+                if not mm:
+                    ok = False
+                    break
+                pat, guard, expr = mm.group(1), mm.group(2), mm.group(3)
+                if pat == '_':
+                    parsed.append((None, None, expr))
+                    continue
+                names = [x.strip() for x in pat[1:-1].split(',') if x.strip()]
+                if not all(re.match(r'^[a-z_]\w*$', x) for x in names):
+                    ok = False
+                    break
+                parsed.append((names, guard, expr))
+            if not ok or not parsed or parsed[-1][0] is not None or any(p[0] is None for p in parsed[:-1]):
+                continue
+            chain = ''
+            for names, guard, expr in parsed[:-1]:
+                cond = '%s.len() == %d' % (v, len(names))
+                if guard:
+                    g = guard
+                    for k, nm in enumerate(names):
+                        g = re.sub(r'\b%s\b' % nm, '%s[%d]' % (v, k), g)
+                    cond += ' && (%s)' % g
+                binds = ' '.join('let %s = &%s[%d];' % (nm, v, k) for k, nm in enumerate(names))
+                chain += 'if %s { %s %s } else ' % (cond, binds, expr)
+            chain += '{ %s }' % parsed[-1][2]
+            out = out.replace(b[m.start():close + 1], chain)
+            self.hit('R29')
+        return out
+
     def apply(self, b, anyhow=True):
         # R0 method chains are joined on one line (`x\n   .f()` -> `x.f()`), so rules and substitutions do not depend on rustfmt's wrapping
         b = re.sub(r'\n\s*\.(?=[A-Za-z_])', '.', b)
+        b = self.slice_match(b)
         b = self.sub('R13', r'\bcrate::v1::', 'v1::', b)
         b = self.sub('R13', r'\bcrate::(?=[A-Z])', '', b)
         # R2 float literals (also as method receivers: 2.0f64.powi)
